@@ -94,31 +94,83 @@ def matrix(tier, seed):
 
 
 def real_runs(progs, cfgs, trace=True):
-    jobs = []
+    binary = os.path.join(vlib.BUILD, "vdrive")
+
+    def mk(p, cfg, max_ms, max_events):
+        (mode, gmp, mon, yld, rs) = cfg
+        jid = "%s|%s|%d|%d|%.1f|%d" % (p["name"], mode, gmp, int(mon), yld, rs)
+        return {"id": jid, "text": p["text"], "mode": mode, "typecheck": True, "execute": True, "monitor": mon, "gomaxprocs": gmp, "seed": rs,
+                "yield": yld, "trace": trace, "dump": False, "max_ms": max_ms, "max_events": max_events}
+
+    # phase 1: one asynchronous run per program classifies it (terminates within the bound? how large?)
+    probe = ("async", 16, False, 0.0, 0)
+    jobs1 = [mk(p, probe, 4000, 8000) for p in progs if p["runnable"]]
+    res1 = vlib.run_jobs(binary, jobs1, batch=1, timeout=30)
     for p in progs:
         if not p["runnable"]:
             continue
-        for (mode, gmp, mon, yld, rs) in cfgs:
-            jid = "%s|%s|%d|%d|%.1f|%d" % (p["name"], mode, gmp, int(mon), yld, rs)
-            jobs.append({"id": jid, "text": p["text"], "mode": mode, "typecheck": True, "execute": True, "monitor": mon,
-                         "gomaxprocs": gmp, "seed": rs, "yield": yld, "trace": trace, "dump": False})
-    binary = os.path.join(vlib.BUILD, "vdrive")
-    res = vlib.run_jobs(binary, jobs, batch=1, timeout=25)
+        r = res1["%s|async|16|0|0.0|0" % p["name"]]
+        p["terminates"] = not (r.get("timeout") or r.get("overflow") or r.get("hang"))
+        p["probe_crash"] = r.get("crash")
+    # phase 2: the configuration matrix for the programs that terminate
+    jobs = [mk(p, c, 8000, 30000) for p in progs if p["runnable"] and p.get("terminates") for c in cfgs]
+    res = vlib.run_jobs(binary, jobs, batch=1, timeout=30)
     # a run whose heartbeat timed out before the last event (machine load) is repeated, not judged
     for attempt in range(3):
         redo = [j for j in jobs if res[j["id"]].get("late", 0) > 0]
         if not redo:
             break
-        res.update(vlib.run_jobs(binary, redo, batch=1, timeout=25, parallel=4))
+        res.update(vlib.run_jobs(binary, redo, batch=1, timeout=30, parallel=4))
     runs = []
-    for j in jobs:
-        r = res[j["id"]]
+    allres = [(j, res[j["id"]]) for j in jobs] + [(j, res1[j["id"]]) for j in jobs1 if res1[j["id"]].get("crash") or not
+              next(p for p in progs if p["name"] == j["id"].split("|")[0]).get("terminates")]
+    for j, r in allres:
         name = j["id"].split("|")[0]
         runs.append({"id": j["id"], "prog": name, "mode": j["mode"], "gomaxprocs": j["gomaxprocs"], "monitor": j["monitor"],
-                     "yield": j["yield"], "seed": j["seed"], "crash": r.get("crash"), "hang": r.get("hang", False),
+                     "yield": j["yield"], "seed": j["seed"], "crash": r.get("crash"), "hang": r.get("hang", False) or r.get("timeout", False),
                      "prints": r.get("prints"), "blocked": r.get("blocked"), "late": r.get("late", 0), "pcount": r.get("pcount"),
-                     "dcount": r.get("dcount"), "events": r.get("events") or [], "ran": r.get("ran", False)})
+                     "dcount": r.get("dcount"), "events": [] if r.get("overflow") or r.get("timeout") else (r.get("events") or []),
+                     "ran": r.get("ran", False), "nonterminating": bool(r.get("timeout") or r.get("overflow"))})
     return runs
+
+
+def premature_quiescence(events, mode):
+    """True if the heartbeat time-out fired although some process could still move (machine load): such a run is not judged.
+    Decided from the run's own events: a live process parked at a form that never blocks, or waiting on a channel that holds a message."""
+    last, live, pending = {}, set(), collections.Counter()
+    for e in events:
+        if e["e"] == "quiesce":
+            break
+        p = tuple(e["p"])
+        if e["e"] == "spawn":
+            live.add(tuple(e["child"]))
+            continue
+        if e["e"] == "end":
+            live.discard(p)
+        if e["e"] == "send" and not e["ctl"]:
+            pending[tuple(e["c"])] += 1
+        if e["e"] == "recv" and not e["ctl"]:
+            pending[tuple(e["c"])] -= 1
+        last[p] = e
+    for p in live:
+        e = last.get(p)
+        if e is None:
+            return True            # spawned, never ran
+        if e["e"] in ("print", "call", "recv", "spawn"):
+            return True            # in the middle of a step
+        if e["e"] == "at":
+            k = e["kind"]
+            if k in ("new", "call", "print", "split", "drop"):
+                return True
+            if mode == "async" and (k in ("send", "sel", "cast", "close") or (k == "fwd" and False)):
+                return True
+            if k in ("recv", "case", "wait", "shift"):
+                if len(e["provs"]) > 1:
+                    return True    # owes a duplication
+                c = tuple(e["names"][0]) if e["names"] and e["names"][0] else (tuple(e["provs"][0]) if e["provs"] else ())
+                if mode != "np" and pending[c] > 0:
+                    return True
+    return False
 
 
 def split_chunks(xs, n):
@@ -155,18 +207,29 @@ def exhaustive(progs, work, modes=("async", "sync"), maxchans=300, timeout=600, 
     return out
 
 
-def validate_traces(progs, runs, work, chunks=None, timeout=900):
+def balanced_chunks(traces, n):
+    bins = [[] for _ in range(n)]
+    load = [0] * n
+    for t in sorted(traces, key=lambda t: -len(t["events"])):
+        k = load.index(min(load))
+        bins[k].append(t)
+        load[k] += len(t["events"]) + 50
+    return [b for b in bins if b]
+
+
+def validate_traces(progs, runs, work, chunks=None, timeout=900, max_events=1200):
     """TLC trace validation of every recorded polarized run. Returns list of per-chunk results with rejected trace ids."""
     byname = {p["name"]: p for p in progs}
     names = sorted({r["prog"] for r in runs if r["events"] and r["mode"] in ("async", "sync") and not r["crash"]})
     corpus = [{"name": n, "prog": byname[n]["dump"], "typed": True, "expect": ["?"]} for n in names]
     idx = {n: i + 1 for i, n in enumerate(names)}
     traces = [{"id": r["id"], "pi": idx[r["prog"]], "mode": r["mode"], "events": r["events"]} for r in runs
-              if r["events"] and r["mode"] in ("async", "sync") and not r["crash"] and not r["late"]]
+              if r["events"] and r["mode"] in ("async", "sync") and not r["crash"] and not r["late"] and len(r["events"]) <= max_events]
+    skipped_long = sum(1 for r in runs if r["events"] and r["mode"] in ("async", "sync") and len(r["events"]) > max_events)
     cpath = work.path("corpus_tr.json")
     json.dump(corpus, open(cpath, "w"))
-    chunks = chunks or min(vlib.NCPU, max(1, len(traces) // 8))
-    parts = split_chunks(traces, chunks)
+    chunks = chunks or min(vlib.NCPU, max(1, len(traces) // 4))
+    parts = balanced_chunks(traces, chunks)
     accepted, rejected, events = 0, [], 0
 
     def one(k):
@@ -205,7 +268,7 @@ def validate_traces(progs, runs, work, chunks=None, timeout=900):
             accepted += acc
             rejected += rej
             events += evs
-    return {"traces": len(traces), "accepted": accepted, "rejected": rejected, "events": events}
+    return {"traces": len(traces), "accepted": accepted, "rejected": rejected, "events": events, "skipped_long": skipped_long}
 
 
 def binding_selftest(progs, runs, work):
@@ -261,13 +324,28 @@ def _campaign(tier, seed, extra_progs):
         progs = fixed_corpus() + (extra_progs or [])
         try:
             import gen
+            t1 = time.time()
             progs += gen.generated_programs(tier, seed, work)
+            gen_time = time.time() - t1
         except ImportError:
             pass
+        tm = {}
+        t1 = time.time()
         frontend(progs)
         cfgs = matrix(tier, seed)
+        tm["frontend"] = time.time() - t1; t1 = time.time()
         runs = real_runs(progs, cfgs)
-        runnable = [p for p in progs if p["runnable"]]
+        tm["real_runs"] = time.time() - t1; t1 = time.time()
+        # a program one of whose runs did not quiesce within the bound is treated as non-terminating: only C01 is judged on it
+        nonterm = {r["prog"] for r in runs if r["nonterminating"] or r["hang"]}
+        for p in progs:
+            if p["name"] in nonterm:
+                p["terminates"] = False
+        for r in runs:
+            if r["prog"] in nonterm:
+                r["nonterminating"] = True
+                r["events"] = []
+        runnable = [p for p in progs if p["runnable"] and p.get("terminates")]
         # size estimate from the real runs: processes ever spawned
         size = collections.defaultdict(int)
         for r in runs:
@@ -288,16 +366,21 @@ def _campaign(tier, seed, extra_progs):
             pass
         exh = exhaustive(small, work, timeout=300 if tier == "quick" else 1500,
                          expect={n: e["bag"] for n, e in expect.items() if e.get("unique")})
-        val = validate_traces(progs, runs, work)
+        tm["exhaustive"] = time.time() - t1; t1 = time.time()
+        val = validate_traces(progs, runs, work, max_events=1200 if tier == "quick" else 5000)
+        tm["validate"] = time.time() - t1; t1 = time.time()
         val["selftest"] = binding_selftest(progs, runs, work)
+        tm["selftest"] = time.time() - t1
+        rejq = {x["id"] for x in val["rejected"] if x.get("event") and x["event"].get("e") == "quiesce"}
         for r in runs:
+            r["premature"] = bool(r["events"]) and (r["id"] in rejq or premature_quiescence(r["events"], r["mode"]))
             r["nevents"] = len(r["events"])
             r["events"] = r["events"][:0]
         return {"tier": tier, "seed": seed,
                 "progs": [{k: p.get(k) for k in ("name", "src", "fe", "accepted", "closed", "runnable", "text")} | {
                     "cfree": contraction_free(p["dump"]) if p.get("dump") else None, "size": size.get(p["name"], 0)} for p in progs],
-                "runs": runs, "exhaustive": exh, "small": [p["name"] for p in small], "validation": val, "expect": expect,
-                "matrix": [list(c) for c in cfgs]}
+                "runs": runs, "nonterminating": [p["name"] for p in progs if p["runnable"] and not p.get("terminates")], "exhaustive": exh, "small": [p["name"] for p in small], "validation": val, "expect": expect,
+                "matrix": [list(c) for c in cfgs], "timing": tm}
 
 
 if __name__ == "__main__":
